@@ -16,13 +16,25 @@ PYTHONPATH=/repo timeout 600 /venv/bin/python $D >$WT.demo0 2>&1; C0=$?
 if [ -z "$SKIP_SUITE" ]; then
   J=$WT.junit.xml
   (cd $WT && /venv/bin/python -m pytest -q -p no:cacheprovider --timeout=900 --continue-on-collection-errors --junitxml=$J >/dev/null 2>&1)
-  SUITE=$(/venv/bin/python - $J <<'PY'
-import json,sys,xml.etree.ElementTree as ET
+  SUITE=$(/venv/bin/python - $J $WT <<'PY'
+import json,subprocess,sys,xml.etree.ElementTree as ET
 base=json.load(open("/root/.vp/BASELINE.json")); want=set(base["stable_pass"])
-passed=set()
-for tc in ET.parse(sys.argv[1]).getroot().iter("testcase"):
-    if not any(ch.tag in ("failure","error","skipped") for ch in tc): passed.add(f"{tc.get('classname')}::{tc.get('name')}")
+def passed_in(j):
+    passed=set()
+    for tc in ET.parse(j).getroot().iter("testcase"):
+        if not any(ch.tag in ("failure","error","skipped") for ch in tc): passed.add(f"{tc.get('classname')}::{tc.get('name')}")
+    return passed
+passed=passed_in(sys.argv[1])
 miss=sorted(want-passed)
+if 0 < len(miss) <= 6:
+    # load-dependent flakes (a 10 s per-test timeout under a busy machine): run the missing tests once more, alone
+    names=sorted({m.split("::")[-1].split("[")[0] for m in miss})
+    j2=sys.argv[1]+".2"
+    subprocess.run(["/venv/bin/python","-m","pytest","-q","-p","no:cacheprovider","--timeout=900","--continue-on-collection-errors",
+                    "-k"," or ".join(names),"--junitxml="+j2],cwd=sys.argv[2],stdout=subprocess.DEVNULL,stderr=subprocess.DEVNULL)
+    try: passed|=passed_in(j2)
+    except Exception: pass
+    miss=sorted(want-passed)
 print(f"suite_missing={len(miss)}" + ("" if not miss else ":"+",".join(m.split('::')[-1] for m in miss[:4])))
 PY
 )
@@ -34,5 +46,5 @@ for C in $CHECKS; do
   RES="$RES $C:exit=$RC[$M]"
 done
 echo "$P/$K: demo_changed=$C1 demo_unchanged=$C0 $SUITE checks:$RES"
-rm -f $WT.err $WT.demo1 $WT.demo0 $WT.junit.xml $WT.chk
+rm -f $WT.err $WT.demo1 $WT.demo0 $WT.junit.xml $WT.junit.xml.2 $WT.chk
 git -C /repo worktree remove --force $WT
